@@ -5,7 +5,7 @@
 From Coq Require Import String.
 From Coq Require Import List NArith Bool.
 From HS Require Import Base.Prelude Model.Value Model.Escape Model.Version Model.Json Model.ZincParse.
-From HS Require Import Proofs.EscapeP Proofs.ZincParseP Proofs.ZincNumP Proofs.ZincDateP Proofs.ZincListP Proofs.ZincGridP.
+From HS Require Import Proofs.EscapeP Proofs.ZincParseP Proofs.ZincNumP Proofs.ZincDateP Proofs.ZincListP Proofs.ZincGridP Proofs.ZincDictP Proofs.ZincMetaP Proofs.ZincDocP Proofs.ZincNestP Proofs.ZincMultiP Proofs.ZincV2P.
 Import ListNotations.
 Open Scope N_scope.
 
@@ -51,6 +51,35 @@ Theorem C03_whole_document : forall g names rows rts,
   p_grid (S (S g)) true (header30 ++ join [44] names ++ 10 :: rows_text rts)
   = Some (Ok (VGrid V30 [] (map (fun n => (n, [])) names) (map (fun cells => combine names cells) rows)), []).
 Proof. exact grid_reads. Qed.
+(* ... with grid and column metadata (bare marker tags, tags with values in any spelling the scalar rule reads), and with
+   anything after the rows that is not a row (">>" of an enclosing cell, the end of the text) *)
+Theorem C03_whole_document_with_metadata : forall g mps cols rows rts r,
+  hs_row (p_scalar (S g) true) r = None ->
+  Forall (mitem_ok g) mps -> NoDup (mkeys mps) -> ~ In VERK (mkeys mps) -> cols_ok g cols ->
+  Forall2 (grid_row_ok g (map fst cols)) rows rts ->
+  p_grid (S (S g)) true (meta_text mps cols rts ++ r) = Some (Ok (meta_grid mps cols rows), r).
+Proof. exact grid_meta_reads_tail. Qed.
+(* version 2.0 documents: the 2.0 alternation, and the reader's version gate lets every non-3.0 value through *)
+Theorem C03_whole_document_2_0 : forall g names rows rts,
+  names <> [] -> Forall colname names -> NoDup names -> Forall2 (grid_row_ok2 g names) rows rts ->
+  p_grid (S (S g)) false (header20 ++ join [44] names ++ 10 :: rows_text rts)
+  = Some (Ok (VGrid V20 [] (map (fun n => (n, [])) names) (map (fun cells => combine names cells) rows)), []).
+Proof. exact grid_reads2. Qed.
+(* one or several grids per document: parser.parse cuts at the empty lines and reads the grids in order *)
+Theorem C03_documents : forall bodies gs, bodies <> [] -> Forall body_ok bodies -> Forall nonblank_hd bodies ->
+  Forall2 (fun b g => zparse_grid (b ++ [10]) = Ok g) bodies gs ->
+  zparse_doc (doc_text bodies) = Ok gs.
+Proof. exact doc_multi. Qed.
+(* dicts and nested grids in any spelling of their parts *)
+Theorem C03_dicts : forall g ps rest, Forall (pair_ok g) ps -> NoDup (map fst (map pkv ps)) -> delim rest ->
+  p_scalar (S (S g)) true (123 :: body_text ps ++ 125 :: rest) = Some (Ok (VDict (map pkv ps)), rest).
+Proof. exact scalar_dict. Qed.
+Theorem C03_nested_grids : forall g mps cols rows rts rest,
+  Forall (mitem_ok g) mps -> NoDup (mkeys mps) -> ~ In VERK (mkeys mps) -> cols_ok g cols ->
+  Forall2 (grid_row_ok g (map fst cols)) rows rts ->
+  p_scalar (S (S (S g))) true (60 :: 60 :: meta_text mps cols rts ++ 62 :: 62 :: rest) = Some (Ok (meta_grid mps cols rows), rest).
+Proof. exact scalar_inner_grid. Qed.
+
 (* number spellings: optional sign, digits, optional fraction, optional exponent e / e+ / e- and digits, optional unit *)
 Theorem C03_number_spellings : forall g ver3 sg ip fp ex u rest, ntok_ok sg ip fp ex u -> delim rest ->
   p_scalar (S g) ver3 (mant sg ip fp ex ++ upt u ++ rest) = Some (Ok (nval sg ip fp ex u), rest).
@@ -73,6 +102,11 @@ Example C03_spellings :
 Proof. vm_compute. repeat split; reflexivity. Qed.
 
 Print Assumptions C03_whole_document.
+Print Assumptions C03_whole_document_with_metadata.
+Print Assumptions C03_whole_document_2_0.
+Print Assumptions C03_documents.
+Print Assumptions C03_dicts.
+Print Assumptions C03_nested_grids.
 Print Assumptions C03_number_spellings.
 Print Assumptions C03_date_time_spellings.
 Print Assumptions C03_lists.
